@@ -45,7 +45,7 @@ def context(obs):
     return f"{first['kind']}-{'during' if during else 'after'}-{last}"
 
 
-def make_sweep(P, oracle, *, plans, kinds=KINDS, decisions=DECISIONS, two=False, faults=False, re_kwargs=None, extra=None, goals_fn=None, ctx=False, updates=0, signal="sig", suspend_kw=None):
+def make_sweep(P, oracle, *, plans, kinds=KINDS, decisions=DECISIONS, two=False, faults=False, re_kwargs=None, extra=None, goals_fn=None, ctx=False, updates=0, signal="sig", suspend_kw=None, run_kw=None):
     """Returns the harness function.  oracle(obs, case) -> list of tags."""
     Ts = [plan_T(p, re_kwargs=re_kwargs) for p in plans]
 
@@ -92,7 +92,7 @@ def make_sweep(P, oracle, *, plans, kinds=KINDS, decisions=DECISIONS, two=False,
             case["prepost"] = True
         with notrace():
             obs = sweep.run_case(corpus.CORPUS[plans[pi]], reqs, decisions[di], fail_call=fail_call, fail_status=fail_status, fail_attr=bool(case.get("fault") and case["fault"][0] == "attr"),
-                                 re_kwargs=re_kwargs, updates=upd, **(extra or {}))
+                                 re_kwargs=re_kwargs, updates=upd, **(run_kw or {}), **(extra or {}))
             case["ctx"] = context(obs)
             tags = oracle(obs, case)
             if goals_fn:
